@@ -226,3 +226,85 @@ func R70() Rule {
 		}
 	}}
 }
+
+// ---------------------------------------------------------------------------
+// R74: no response is streamed to the client while a table or registry mutex is held.
+//
+// C20 "never hangs … alone or concurrently with any other requests".  `Send` on a
+// gRPC server stream blocks for as long as the client's flow-control window is
+// full; a client that stops reading (or a slow link) therefore parks the handler
+// inside Send.  If the handler holds table.mu (even for reading) at that point,
+// every writer of the table queues behind it, and — sync.RWMutex blocks new
+// readers once a writer waits — so does every later reader: one stalled stream
+// wedges the table.  ReadRows gives the lock up around its Send for exactly this
+// reason; the rule demands it of every streaming call (the same shape as R20-L3,
+// "nothing blocks under the map mutex").
+// ---------------------------------------------------------------------------
+
+func isServerStreamSend(ci *core.CallInfo) bool {
+	if ci.Method == nil || ci.IfaceRecv == nil {
+		return false
+	}
+	switch ci.Method.Name() {
+	case "Send", "SendMsg", "SendHeader":
+	default:
+		return false
+	}
+	it, ok := ci.IfaceRecv.Underlying().(*types.Interface)
+	if !ok {
+		return false
+	}
+	// a grpc server stream: the interface has SendMsg/RecvMsg/Context (embedded grpc.ServerStream)
+	need := map[string]bool{"SendMsg": false, "RecvMsg": false, "Context": false}
+	for i := 0; i < it.NumMethods(); i++ {
+		if _, ok := need[it.Method(i).Name()]; ok {
+			need[it.Method(i).Name()] = true
+		}
+	}
+	for _, v := range need {
+		if !v {
+			return false
+		}
+	}
+	return true
+}
+
+func R74() Rule {
+	return Rule{Name: "R74", Run: func(c *core.Ctx) {
+		P := c.P
+		if P.SPkgs[core.PkgBttest] == nil {
+			return
+		}
+		la := Locks(P)
+		n := 0
+		for _, fn := range P.SrcFuncs(core.PkgBttest) {
+			k := 0
+			for _, ci := range core.AllCalls(fn) {
+				if !isServerStreamSend(ci) {
+					continue
+				}
+				n++
+				k++
+				c.Calls++
+				c.Fn(core.FuncName(core.Root(fn)))
+				construct := fmt.Sprintf("%s/stream.%s#%d/no-lock-held", core.FuncName(core.Root(fn)), ci.Method.Name(), k)
+				held := la.AbsAt(ci.Instr)
+				var locks []string
+				for l, m := range held {
+					if m != mNone {
+						locks = append(locks, fmt.Sprintf("%s (%s)", l, m))
+					}
+				}
+				sort.Strings(locks)
+				if len(locks) > 0 {
+					c.Bad("R74", construct, ci.Instr.Pos(), "the response is streamed to the client while %v is held: Send blocks as long as the client does not read, and with it every writer of the table and — behind the first waiting writer — every reader; one stalled stream wedges the table (ReadRows releases the lock around its Send for this reason)", locks)
+				} else {
+					c.Ok("R74", construct, ci.Instr.Pos(), true, "no repository mutex is held when the response is handed to the transport")
+				}
+			}
+		}
+		if n < 2 {
+			c.Unknown("R74", "floor/stream-sends", token.NoPos, "only %d server-stream sends found", n)
+		}
+	}}
+}
